@@ -5,6 +5,7 @@ package lib
 import (
 	stderrors "errors"
 	"fmt"
+	"hash/fnv"
 	"runtime/debug"
 	"strings"
 
@@ -205,6 +206,12 @@ func BuildWithBuffer(sp Spec, fromBytes bool) (s *njs.Schema, buf []byte, o Obs)
 	if sp.OptKeys {
 		opts = append(opts, njs.KeysAreOptionalByDefault())
 	}
+	if h := fnv.New32a(); len(sp.Text) > 3 {
+		h.Write([]byte(sp.Text))
+		if h.Sum32()%8 == 0 {
+			Prelude(sp.Text)
+		}
+	}
 	if fromBytes {
 		buf = []byte(sp.Text)
 		s = njs.New("root", buf, opts...)
@@ -283,6 +290,41 @@ func BuildWithBuffer(sp Spec, fromBytes bool) (s *njs.Schema, buf []byte, o Obs)
 		}
 	}
 	return s, buf, Obs{OK: true, Code: -1, Pos: -1}
+}
+
+// Prelude uses throw-away objects on broken texts right before the real ones are built: the same
+// text cut at two thirds as a schema, as an enum rule and as a document, each asked for its
+// length, checked and read. Whatever these calls leave behind in the library (recycled
+// scanners, caches keyed by text) must not reach the objects built next: every result the
+// monitors judge is specified for the inputs alone. The prelude is a function of the text, so
+// a replay repeats it.
+func Prelude(text string) {
+	cut := text[:len(text)*2/3]
+	Safe(func() error {
+		s := njs.New("prelude", cut)
+		_, _ = s.Len()
+		_ = s.Check()
+		_, _ = s.GetAST()
+		_, _ = s.Example()
+		return nil
+	})
+	Safe(func() error {
+		e := enum.New("prelude", "[1, \"a\", true, "+cut)
+		_, _ = e.Len()
+		_ = e.Check()
+		return nil
+	})
+	Safe(func() error {
+		d := json.New("prelude", cut)
+		_ = d.Check()
+		for i := 0; i < 4*len(cut)+8; i++ {
+			if _, err := d.NextLexeme(); err != nil {
+				break
+			}
+		}
+		_, _ = d.Len()
+		return nil
+	})
 }
 
 // Check builds a fresh schema and runs Check.
